@@ -1,7 +1,7 @@
 (* Reach.v — the invariant holds in every world reachable by any program under any script. *)
 From Coq Require Import Arith ZArith Lia.
 From Minimq Require Import Util Bytes Varint Utf8 Props Ser De Reader Arena Core Show Machine Parse Run.
-From Minimq Require Import Lts Refine ArenaLemmas SerLemmas ArenaOps Inv Quota.
+From Minimq Require Import Lts Refine ArenaLemmas SerLemmas ArenaOps Inv Quota Cap.
 
 Lemma Inv_step : forall s l s', sstep s l s' -> Inv s -> Inv s'.
 Proof.
@@ -203,3 +203,37 @@ Proof.
     cbn [init_world w_sess session_new s_rt s_ob rt_new ob_new ob_ret ob_rel ob_buf rt_quota rt_maxquota filter glen]. lia. }
   exact (proj2 (spath_Q _ _ _ Hp I0 Q0 Hf)).
 Qed.
+
+(* ---------- the arena keeps its size in every reachable world (C17) ---------- *)
+Lemma spath_Cap : forall s ls s', spath s ls s' -> Inv s -> CapInv s -> Inv s' /\ CapInv s'.
+Proof.
+  intros s ls s' H. induction H as [s|s l s1 ls s2 Hs Hp IH]; intros I Hc; [split; assumption|].
+  apply IH; [eapply Inv_step; eassumption | eapply CapInv_step; eassumption].
+Qed.
+
+Theorem reachable_Cap : forall c, lenN (ob_buf (s_ob (w_sess (run_case c)))) = cf_tx (c_cfg c).
+Proof.
+  intros c. destruct (run_case_wq c) as [b [[ls [Hp _]] _]].
+  assert (I0 : Inv (w_sess (init_world c))) by (cbn [init_world w_sess]; apply Inv_init).
+  assert (C0 : CapInv (w_sess (init_world c))) by (cbn [init_world w_sess]; apply CapInv_init).
+  destruct (spath_Cap _ _ _ Hp I0 C0) as [_ Hc]. unfold CapInv in Hc. rewrite Hc.
+  (* the configuration never changes *)
+  assert (G : forall s ls s', spath s ls s' -> Inv s -> s_cfg s' = s_cfg s).
+  { clear. intros s ls s' H. induction H as [s|s l s1 ls s2 Hs Hp IH]; intros I; [reflexivity|].
+    rewrite IH by (eapply Inv_step; eassumption).
+    inversion Hs; subst; try reflexivity.
+    - unfold maybe_queue_pingreq. destruct (should_queue_pingreq _ _); [|reflexivity]. destruct (check_control_size _ _); [reflexivity|].
+      destruct (queue_control _ _); reflexivity.
+    - unfold set_written. destruct p; [destruct (set_control_written _ _ _ _)|destruct (set_release_written _ _ _ _)|destruct (set_retained_written _ _ _ _)]; reflexivity.
+    - unfold complete_flush. destruct p; [destruct (flush_control _ _)|destruct (flush_release _ _)|destruct (flush_retained _ _)]; reflexivity.
+    - apply (handle_packet_cap s p I).
+    - apply (publish_middle_cap s live r I).
+    - unfold subscribe_middle. apply (enqueue_middle_cap s 2 _ (fun id c o b Hx => enc_subscribe_fits _ c o b Hx) I).
+    - unfold unsubscribe_middle. apply (enqueue_middle_cap s 3 _ (fun id c o b Hx => enc_unsubscribe_fits _ c o b Hx) I).
+    - unfold connack_process. destruct p as [p|]; [|reflexivity]. destruct p; try reflexivity.
+      destruct (negb _); [reflexivity|]. destruct (connack_props _ _ _); [|reflexivity]. destruct sp; reflexivity. }
+  rewrite (G _ _ _ Hp I0). reflexivity.
+Qed.
+
+Corollary reachable_arena_wf : forall c : case, arena_wf (s_ob (w_sess (run_case c))).
+Proof. intros c. apply (oi_arena _ (inv_ob _ (reachable_Inv c))). Qed.
